@@ -796,8 +796,8 @@ func c18Random(r *vh.Rng, seed uint64, nres, nactors, minLen, maxLen int, adv bo
 		if !own && (mv == 2 || mv == 5) {
 			mv = 1
 		}
-		if mv == 4 && g.slotSub[a] >= 0 && g.slotClosed[a] && !r.Chance(1, 2) {
-			continue // adversarial stream: double closes, but not all the time
+		if adv && g.slotSub[a] >= 0 && g.slotClosed[a] && r.Chance(1, 3) {
+			mv = 4 // adversarial stream: Close through a subscription that was closed before
 		}
 		if !g.actorMoveOK(a, mv) {
 			if !g.actorMoveOK(a, 0) {
